@@ -86,6 +86,101 @@ fn classify_merge_diff(got: &Tagged, want: &Tagged) -> &'static str {
     }
 }
 
+/// an item type whose equality looks at the key only (payload and its length differ between lists)
+#[derive(Clone, Debug)]
+pub struct Keyed {
+    pub key: u16,
+    pub payload: String,
+}
+impl PartialEq for Keyed {
+    fn eq(&self, other: &Keyed) -> bool {
+        self.key == other.key
+    }
+}
+
+pub type TaggedWide = Vec<(u16, bool)>;
+
+pub fn reference_merge_wide(v: &TaggedWide, o: &TaggedWide) -> TaggedWide {
+    let mut out: TaggedWide = Vec::new();
+    for (x, m) in v {
+        let both = *m && o.iter().any(|(y, n)| y == x && *n);
+        out.push((*x, both));
+    }
+    for (y, _) in o {
+        if !v.iter().any(|(x, _)| x == y) {
+            out.push((*y, false));
+        }
+    }
+    out
+}
+
+/// long lists over a large alphabet through u16 items, long Strings, and the key-only-equality type
+pub fn check_merge_wide(kind: u8, v: &TaggedWide, o: &TaggedWide, rep: &mut Report) {
+    rep.evaluations += 1;
+    let want = reference_merge_wide(v, o);
+    let nec = |l: &TaggedWide, f: &dyn Fn(u16) -> Keyed| -> Vec<Necessity<Keyed>> {
+        l.iter().map(|(x, m)| if *m { Necessity::Mandatory(f(*x)) } else { Necessity::Optional(f(*x)) }).collect()
+    };
+    let got: Result<TaggedWide, String> = match kind {
+        0 => guarded(|| {
+            let a: Vec<Necessity<u16>> = v.iter().map(|(x, m)| if *m { Necessity::Mandatory(*x) } else { Necessity::Optional(*x) }).collect();
+            let b: Vec<Necessity<u16>> = o.iter().map(|(x, m)| if *m { Necessity::Mandatory(*x) } else { Necessity::Optional(*x) }).collect();
+            merge_necessity(a, b).iter().map(|n| (*n.inner_t(), matches!(n, Necessity::Mandatory(_)))).collect()
+        }),
+        1 => guarded(|| {
+            // long strings sharing long prefixes
+            let f = |x: u16| format!("{}-{}", "a-long-common-prefix-shared-by-all-items-".repeat(1 + (x % 3) as usize), x);
+            let a: Vec<Necessity<String>> = v.iter().map(|(x, m)| if *m { Necessity::Mandatory(f(*x)) } else { Necessity::Optional(f(*x)) }).collect();
+            let b: Vec<Necessity<String>> = o.iter().map(|(x, m)| if *m { Necessity::Mandatory(f(*x)) } else { Necessity::Optional(f(*x)) }).collect();
+            merge_necessity(a, b)
+                .iter()
+                .map(|n| (n.inner_t().rsplit('-').next().unwrap().parse::<u16>().unwrap(), matches!(n, Necessity::Mandatory(_))))
+                .collect()
+        }),
+        _ => guarded(|| {
+            let a = nec(v, &|x| Keyed { key: x, payload: "first".into() });
+            let b = nec(o, &|x| Keyed { key: x, payload: format!("second list, other payload {}", x) });
+            merge_necessity(a, b).iter().map(|n| (n.inner_t().key, matches!(n, Necessity::Mandatory(_)))).collect()
+        }),
+    };
+    match got {
+        Ok(got) => {
+            if got != want {
+                let kind_s = {
+                    let mut g: Vec<u16> = got.iter().map(|x| x.0).collect();
+                    let mut w: Vec<u16> = want.iter().map(|x| x.0).collect();
+                    if g == w {
+                        "necessity"
+                    } else {
+                        g.sort();
+                        w.sort();
+                        if g == w {
+                            "order"
+                        } else {
+                            "membership"
+                        }
+                    }
+                };
+                rep.violation(
+                    &format!("merge:{}", kind_s),
+                    format!(
+                        "merge_necessity on lists of {} and {} items (element type {}) = {:?}, expected {:?}\nfirst: {:?}\nsecond: {:?}",
+                        v.len(),
+                        o.len(),
+                        ["u16", "long String", "key-only PartialEq"][kind as usize],
+                        got,
+                        want,
+                        v,
+                        o
+                    ),
+                    json!({"kind": "merge-wide", "v": v, "o": o, "elem": kind}),
+                );
+            }
+        }
+        Err(p) => rep.violation("merge:panic", format!("merge_necessity panicked: {}", p), json!({"kind": "merge-wide", "v": v, "o": o, "elem": kind})),
+    }
+}
+
 /// which element type to push the pair through
 pub fn merge_via(kind: u8, v: &Tagged, o: &Tagged) -> Result<Tagged, String> {
     match kind {
@@ -183,10 +278,35 @@ pub fn run_c15(thorough: bool, seed: u64, shards: usize) -> (Report, String) {
                 rep.sample(json!({"v": v, "o": o, "merged": reference_merge(&v, &o), "note": "(item, mandatory)"}));
             }
         }
+        // long lists around size thresholds, large alphabet, other element types
+        for i in 0..(n_random / 40 / shards as u64) {
+            let universe: usize = *r.pick(&[40usize, 100, 300, 700, 70_000 % 65_536]);
+            let mut mk = |r: &mut Rng| -> TaggedWide {
+                let len = match r.below(6) {
+                    0 => r.range(60, 70),
+                    1 => r.range(126, 130),
+                    2 => r.range(250, 260),
+                    3 => r.range(0, 30),
+                    4 => r.range(500, 520),
+                    _ => r.range(30, 300),
+                }
+                .min(universe);
+                let mut pool: Vec<u16> = (0..universe as u16).collect();
+                r.shuffle(&mut pool);
+                pool.truncate(len);
+                pool.into_iter().map(|x| (x, r.chance(1, 2))).collect()
+            };
+            let v = mk(&mut r);
+            let o = mk(&mut r);
+            check_merge_wide((i % 3) as u8, &v, &o, &mut rep);
+            rep.count("long_list_pairs");
+            rep.max("max_list_length", v.len().max(o.len()) as u64);
+            rep.nontrivial.insert(fnv64(format!("w{:?}{:?}", v, o).as_bytes()) | (1 << 62));
+        }
         rep
     });
     let rule = format!(
-        "exhaustive: all {}^2 = {} ordered pairs of duplicate-free tagged lists over an alphabet of {} (every order, every optional/mandatory assignment), element type u8 for every pair and String/&str for every fourth; plus {} random pairs of lists up to length 12 over 16 symbols. Non-trivial: both lists non-empty; distinct: the pair itself.",
+        "exhaustive: all {}^2 = {} ordered pairs of duplicate-free tagged lists over an alphabet of {} (every order, every optional/mandatory assignment), element type u8 for every pair and String/&str for every fourth; plus {} random pairs of lists up to length 12 over 16 symbols, plus long lists (lengths around 64, 128, 256, 512 and up to 520 over alphabets of 40..4464 symbols) through u16 items, long Strings with long common prefixes and an item type whose PartialEq looks at a key only. Non-trivial: both lists non-empty; distinct: the pair itself.",
         n,
         n * n,
         alphabet,
@@ -741,6 +861,12 @@ pub fn replay(property: &str, case: &Value, rep: &mut Report) -> Result<(), Stri
             let o: Tagged = serde_json::from_value(case["o"].clone()).map_err(|e| e.to_string())?;
             let kind = case["elem"].as_u64().unwrap_or(0) as u8;
             check_merge_pair(kind, &v, &o, rep);
+            Ok(())
+        }
+        ("C15", Some("merge-wide")) => {
+            let v: TaggedWide = serde_json::from_value(case["v"].clone()).map_err(|e| e.to_string())?;
+            let o: TaggedWide = serde_json::from_value(case["o"].clone()).map_err(|e| e.to_string())?;
+            check_merge_wide(case["elem"].as_u64().unwrap_or(0) as u8, &v, &o, rep);
             Ok(())
         }
         ("C16", Some("ops")) => {
